@@ -142,14 +142,15 @@ def odd_ref(r, first):
     (finding F26) - exactly the classes that fail on the unchanged library: not a string (other than int); the
     empty string; a leading anchor mark '&'; a '*' anywhere (re-read as a wildcard); a back-slash in front of a
     character escape_path_section escapes (ensure_escaped takes the pair for an escape it already made); and, for
-    the FIRST segment of the path only, a leading '/' (the text then reads as forward-slash notation); a
-    white-space character other than the blank ' ' (tab, line break: only ' ' is escaped, the parser drops the rest).
+    the FIRST segment of the path only, a leading '/' (the text then reads as forward-slash notation) and a key made
+    only of white space other than the blank ' ' (a tab: only ' ' is escaped, so the whole path text is blank and
+    YAMLPath takes it for the empty = root path).
     Keys that merely contain or start / end with escapable characters - blanks at either end included - are
     escaped correctly today and are NOT in this class."""
     if not isinstance(r, str):
         return not isinstance(r, int) or isinstance(r, bool)
     return (r == "" or r[0] == "&" or "*" in r or _TAKEN_FOR_ESCAPED.search(r) is not None
-            or (first and r[0] == "/") or any(c.isspace() and c != " " for c in r))
+            or (first and (r[0] == "/" or (r.isspace() and " " not in r))))
 
 
 def odd_along(nc):
@@ -245,7 +246,8 @@ EDGE_KEYS = ["sp ", " sp", " both ", " ", "  ", "a b", "a  b ", "", "1", "-1", "
              "//", "&d", "a&b", "*", "a*", "*a", "**", "[x", "x[", "(y", "y(", "]", ")", "[0]", "(a)", "back\\slash",
              "\\", "a\\", "\\a", "a\\.b", "a\\/b", "a\\\\b", "a\\ b", "a\\[", "a.b", "a/b", ".dot", "dot.", "'q",
              "q'", "'q'", '"q', 'q"', "=", "!", "a=b", "a!b", "~", "<", ">", ",", ":", "^a", "a^", "a$", "$a", "%", "a%b",
-             "true", "null", "{", "}", "#", "@", "0", "x y z", "\t", " .", ". ", "a. b", "[ ]", "é "]
+             "true", "null", "{", "}", "#", "@", "0", "x y z", "\t", "\ta", "a\t", "a\tb", " \t", "\n", " .", ". ", "a. b", "[ ]",
+             "é "]
 
 
 def yq(k):
